@@ -404,3 +404,57 @@ class _SubAD:
 SUBCHECKS = {"table": _SubT(), "consumer": _SubC(), "ad": _SubAD(), "mixed": _SubM()}
 REPLAY = {"table": lambda c: explore_table(c).fails, "consumer": lambda c: explore_consumer(c).fails, "ad": lambda c: explore_ad(c).fails,
           "mixed": lambda c: explore_mixed(c).fails}
+
+
+# ---------------- the same small-angle inputs given as numbers (Python API), in every input form ----------------------------------
+def explore_pyapi(case):
+    """small and mixed-magnitude rotation vectors (one tiny component next to ordinary ones, everything tiny, exact zeros) through the
+    numeric Python API: the result must equal the symbolic-Function path judged by the other sub-checks, in every input form"""
+    from .. import numapi
+    name, seed = case["group"], case["seed"]
+    res = core.Result()
+    B = lib.built(name)
+    AL = lib.alg_layout(B.G)
+    tiny = [np.array(v) for v in ([0.3, 4e-7, -0.2], [5e-7, 0.0, 0.0], [1e-9, 1e-3, 0.0], [0.0, 0.0, 2e-8], [9e-7, -9e-7, 9e-7], [0.0, 1e-4, 1.2], [2e-6, 3e-6, -1e-6])]
+    xs = []
+    for rv in tiny:
+        parts = []
+        for k, sl in enumerate(AL):
+            if sl[0] == "rotvec":
+                parts.append(rv)
+            elif sl[0] == "angle":
+                parts.append(np.array([rv[0] if rv[0] else rv[2]]))
+            else:
+                parts.append(np.array([0.7, 3e-7, -1.3, 0.4][:sl[1]]) if k % 2 == 0 else np.array([2e-7, 0.0, 5.0][:sl[1]]))
+        xs.append(np.concatenate(parts))
+    ops = ("exp", "wedge", "ad", "left_jacobian", "right_jacobian", "left_jacobian_inv", "right_jacobian_inv")
+    for op in ops:
+        B.get(op)
+    numapi.check_group(res, B, [], xs, case, "pyapi", ops, tol=1e-11)
+    numapi.check_forms(res, B, [], xs, case, "pyapi", ops, tol=1e-11)
+    B.get("log")
+    B.get("Ad")
+    if B.status.get("exp") == "ok":
+        elems = [B.vec("exp", x) for x in xs]
+        elems = [e for e in elems if np.all(np.isfinite(e))]
+        numapi.check_group(res, B, elems, [], case, "pyapi", ("log", "Ad", "to_Matrix"), tol=1e-9)
+        numapi.check_forms(res, B, elems, [], case, "pyapi", ("log", "Ad", "to_Matrix"), tol=1e-9)
+    for x in xs:
+        res.nontrivial.add(hash((name, x.tobytes())))
+    res.outcomes.add(int(res.counters.get("evaluations", 0)))
+    res.samples.append(dict(group=name, small_inputs=len(xs)))
+    return res
+
+
+class _SubPy:
+    chunks = 1
+
+    def cases(self, tier, seed):
+        return [dict(sub="pyapi", group=g, tier=tier, seed=seed) for g in ("SO3Quat", "SO3Mrp", "SO3Dcm", "SO3EulerB321", "SE3Quat", "SE3Mrp", "SE23Quat", "SE23Mrp", "SE2", "SO2")]
+
+    def run(self, case):
+        return explore_pyapi(case)
+
+
+SUBCHECKS["pyapi"] = _SubPy()
+REPLAY["pyapi"] = lambda c: explore_pyapi(c).fails
